@@ -120,6 +120,8 @@ func checkC08(c *Ctx) {
 	r := c.R
 	r.Explain = "Running the generated modules is outside static analysis; route/verb/placement agreement is decided by C03, error mapping by C10, type declarations by C07. Decided here on the reconstructed TypeScript modules (emission grammar, nothing is executed; TypeScript is read with a lexer, not type-checked): R08a every identifier in call or construction position of every reconstructed module (deep exploration, every arm, and a per-iteration enumeration in which the two services and their two methods independently declare or do not declare headers) is declared in the module, a parameter or a platform global — a helper whose emission guard disagrees with its use sites makes the module throw ReferenceError at the first request. R08b the TS client wraps every path substitution in encodeURIComponent and builds the query with URLSearchParams; the TS server applies decodeURIComponent to every extracted segment and reads url.searchParams. R08c in the TS client, the Go client and the TS server's route configuration the header name written/validated is the declared name itself (hole key GetName(), no transformation) and the option/property name is derived from that same header. R08d the TS client sends JSON.stringify(req) exactly for POST/PUT/PATCH with Content-Type application/json and reads resp.json(); the TS server reads req.json() for the same verbs and answers JSON.stringify with the same content type. R08f the TS server selects the string-to-field conversion of path and query parameters with the function the request interface is declared with. R08g on a grid of configurations (base path × config absent / verb only / path only / both) the verb and the path literal reconstructed from the TS client and from the TS server are the same strings. Not decided: runtime behaviour of fetch/URL, TypeScript typing, values."
 	r.Rule("R08a", "every called identifier of every reconstructed TypeScript module is declared, a parameter or a platform global", 4)
+	r.Rule("R08k", "the TS client fills a path variable from the request property of the field's JSON name (shared with C03/R03e)", 1)
+	tsPathPropertyNames(c, "R08k")
 	r.Rule("R08j", "every reconstructed TypeScript module is lexically loadable: delimiters balance and no block-scoped name is declared twice in one block, also when several services of a file use headers (shared with C13/R13h)", 2)
 	r.Rule("R08b", "path substitutions are percent-encoded by the client and decoded by the server; query via URLSearchParams", 4)
 	r.Rule("R08c", "typed header options write exactly the declared header name", 6)
